@@ -101,6 +101,11 @@ def exact_expectation(case):
     vals = [bfloat(x) for x in cs] + [bfloat(lo), bfloat(hi)]
     if any(math.isnan(v) or math.isinf(v) for v in vals):
         return None
+    # the statement quantifies over coefficient magnitudes 1e-6..1e6; outside a generous margin around that grid
+    # (subnormal or astronomically large coefficients, where the binary64 evaluation itself overflows to +-inf) the
+    # exact-arithmetic oracle does not judge - those cases still go through the model/implementation comparison
+    if any(v != 0 and not (1e-9 <= abs(v) <= 1e9) for v in vals[:len(cs)]):
+        return None
     raw = DT_RAW[d]
     if raw is None:
         raw = (-Fraction(bfloat(0x47EFFFFFE0000000)), Fraction(bfloat(0x47EFFFFFE0000000))) if d == 9 else \
